@@ -54,6 +54,8 @@ impl FixtureDatabase {
 @start
     let ghost defs = self.defs();
     let ghost m0 = self.definitions.m();
+@before for 1
+    proof { lemma_tables_empty(defs); }
 @loopvar 1 it1
 @loop 1
     invariant
@@ -77,15 +79,9 @@ impl FixtureDatabase {
             assert(dv(def).dependencies.contains(x@));
         }
     }
-@loopend 1
+@after valid_deps 2
     proof {
-        if dep_graph.m() != dg0 {
-            let g = dg_view(dep_graph.m());
-            assert forall|n: Seq<char>, j: int| g.contains_key(n) && 0 <= j < g[n].len() implies edge(defs, n, #[trigger] g[n][j]) by {
-                if n != nm { assert(dg0.contains_key(n) && dg_view(dg0)[n] == g[n]); }
-            }
-        }
-        assert(fdefs_ok(fixture_defs.m(), defs));
+        lemma_tables_insert(defs, dg0, dep_graph.m(), fd0, fixture_defs.m(), nm, dep_graph.m()[nm], fixture_defs.m()[nm]);
     }
 @before visited 1
     let ghost g = dg_view(dep_graph.m());
@@ -99,9 +95,7 @@ impl FixtureDatabase {
     let ghost mut gsv: Seq<EntV> = evs(stack@);
     proof {
         assert(stack@.len() == 1);
-        assert(gsv[0].path =~= Seq::<Seq<char>>::empty());
-        assert(link_ok(defs, gsv, 0));
-        assert(dfs_inv(defs, gsv, rec_stack.s(), visited.s()));
+        lemma_dfs_init(defs, gsv, visited.s());
     }
 @loop 3
     invariant
@@ -137,7 +131,6 @@ impl FixtureDatabase {
     proof {
         assert(strs_v(path@) =~= cp);
         assert(rec_stack.s() =~= rec1);
-        assert(cycles@ == cycles0 && seen_cycles.s() == seen0);
     }
 @before continue 3
     proof {
@@ -159,6 +152,7 @@ impl FixtureDatabase {
         let y = path@.as_ref()[j];
         assert(path@[j]@ == dep@);
         assert(cycle_start_idx < path@.len() && path@[cycle_start_idx as int]@ == dep@);
+        assert(strs_v(path@.subrange(cycle_start_idx as int, path@.len() as int)) =~= cp.subrange(cycle_start_idx as int, cp.len() as int));
     }
 @after dep 4
     let ghost cpv = strs_v(cycle_path@);
@@ -172,36 +166,30 @@ impl FixtureDatabase {
 @after dep 5
     proof {
         assert(cycle_key_str@ == cyc_key(cpv));
-        if cycles@.len() > cycles0.len() {
-            let c = cycles@[cycles0.len() as int];
-            assert(cycles@ == cycles0.push(c));
-            assert(cyv(&c).path == cpv);
-            assert(cycle_ok(defs, cyv(&c)));
+        assert(cpv.last() == dep@);
+        if cycles@.len() != cycles0.len() {
+            assert(cycles@.drop_last() =~= cycles0);
+            assert(strs_v(cycles@.last().cycle_path@) == cpv);
         }
-        assert(cycles_ok(defs, cycles@));
-        assert(keys_ok(cycles@, seen_cycles.s()));
+        lemma_report(defs, fixture_defs.m(), cycles0, cycles@, seen0, cpv);
     }
-@loopend 3
+@after dep 2
     proof {
-        if idx < deps.len() {
-            let explore = !rec1.contains(dep_v0(g, e)) && !vis0.contains(dep_v0(g, e));
-            assert(g[e.node] == strs_v(deps@));
-            lemma_step_dep(defs, g, sv0, rec0, vis0, explore);
-            lemma_meas_dep(g, sv0, rec0, vis0, explore);
-            gsv = next_sv(sv0, dep_v0(g, e), explore);
-            assert(evs(stack@) =~= gsv);
-        } else {
-            lemma_step_pop(defs, sv0, rec0, vis0, vis0.insert(e.node));
-            lemma_meas_done(g, sv0, rec0, vis0);
-            gsv = sv0.drop_last();
-        }
+        let explore = !rec1.contains(dep_v) && !vis0.contains(dep_v);
+        lemma_step_dep(defs, g, sv0, rec0, vis0, explore);
+        lemma_meas_dep(g, sv0, rec0, vis0, explore);
+        gsv = next_sv(sv0, dep_v, explore);
+        assert(evs(stack@) =~= gsv);
+    }
+@after rec_stack 6
+    proof {
+        lemma_step_pop(defs, sv0, rec0, vis0, vis0.insert(e.node));
+        lemma_meas_done(g, sv0, rec0, vis0);
+        gsv = sv0.drop_last();
     }
 @*/
 }
 } // mod resolver
 use resolver::*;
-
-/// the dependency the popped entry looks at
-pub open spec fn dep_v0(g: Map<Seq<char>, Seq<Seq<char>>>, e: EntV) -> Seq<char> { g[e.node][e.idx] }
 } // verus!
 fn main() {}
